@@ -674,8 +674,8 @@ Definition cres := option (server * N * rerr * option N * option N).
 
 (* ServerSession.runInner, case chHandleRequest *)
 Definition sess_request (g : cfg) (s : server) (c : conn) (ss0 : session) (r : req) : cres :=
-  let ss := ss_with_conns ss0 (nadd (c_id c) (s_conns ss0)) in
-  match sess_inner g s c ss r with
+  let ss := ss_with_conns ss0 (nadd (c_id c) (s_conns ss0)) in     (* ss.conns[req.sc] = struct{}{} *)
+  match sess_inner g (set_sess s ss) c ss r with
   | None => None
   | Some (s1, ss1, st, e) =>
       let ok := match e with RErr => false | _ => true end in
